@@ -46,7 +46,10 @@ pub fn prefix_of(v4: bool, bits: u128, len: u8) -> Prefix {
 impl RawVrp {
     pub fn origin(&self) -> RouteOrigin {
         let p = prefix_of(self.v4, self.bits, self.len);
-        RouteOrigin::new(MaxLenPrefix::new(p, Some(self.max)).unwrap(), Asn::from_u32(self.asn))
+        // a max length equal to the prefix length is written as "absent" for about half of the VRPs (ROA entries and
+        // SLURM assertions without maxLength); which half is a fixed function of the VRP so that equal VRPs stay equal
+        let absent = self.max == self.len && (self.bits.count_ones() + self.asn + self.len as u32) % 2 == 0;
+        RouteOrigin::new(MaxLenPrefix::new(p, if absent { None } else { Some(self.max) }).unwrap(), Asn::from_u32(self.asn))
     }
     pub fn from_origin(o: &RouteOrigin) -> Self {
         let (v4, bits) = ip_bits(o.prefix.addr());
